@@ -523,6 +523,14 @@ pub fn catalogue() -> Vec<Builtin> {
         expect_eq!(cx, "b_stringbuf_reuse", f.call(rs(&a), b, rs(&c2)).to_string(), format!("{a}|{a}{b}|{a}{b}{c2}|{a}{b}{c2}"), "{a:?}, {b:?}, {c2:?}");
         Ok(())
     }});
+    v.push(Builtin { name: "b_stringbuf_pushes", src: "fn b_stringbuf_pushes(a: String, b: String, c: String) -> String {\n    let buf = StringBuf.new();\n    buf.push_string(a);\n    buf.push_string(b);\n    buf.push_string(c);\n    let other = StringBuf.from(c);\n    other.push_string(a);\n    other.push_string(b);\n    buf.as_string() + \"|\" + other.as_string()\n}", run: |cx| {
+        // strings pushed one right after the other, nothing read in between: short after long, long after short
+        let (a, b, c2) = (gen_string(cx.c), gen_string(cx.c), gen_string(cx.c));
+        let f = get!(cx, "b_stringbuf_pushes", fn(RotoString, RotoString, RotoString) -> RotoString);
+        cx.nontrivial = a.len() >= 15 || b.len() >= 15 || c2.len() >= 15;
+        expect_eq!(cx, "b_stringbuf_pushes", f.call(rs(&a), rs(&b), rs(&c2)).to_string(), format!("{a}{b}{c2}|{c2}{a}{b}"), "{a:?}, {b:?}, {c2:?}");
+        Ok(())
+    }});
     v.push(Builtin { name: "b_stringbuf", src: "fn b_stringbuf(a: String, b: char, c: String) -> String {\n    let buf = StringBuf.from(a);\n    buf.push_char(b);\n    buf.push_string(c);\n    let other = StringBuf.new();\n    other.push_string(buf.as_string());\n    other.push_char(b);\n    other.as_string()\n}", run: |cx| {
         let (a, c2) = (gen_string(cx.c), gen_string(cx.c));
         let b = ['a', 'é', '日', '\n', '\0'][cx.c.below(5)];
